@@ -12,6 +12,7 @@ import OH.Driver.C10
 import OH.Driver.C11
 import OH.Driver.C18
 import OH.Driver.Py
+import OH.Driver.Syn
 /-
 `ohdriver`: reads protocol lines on stdin, prints one verdict line per input line.
 Only core + OH.Model/OH.Driver imports (no Mathlib), so it links as a `lean_exe`.
@@ -33,6 +34,7 @@ def dispatch (op : String) (args impl : List String) : String :=
     else if op.startsWith "pur." then OH.Driver.C18.handle op args impl
     else if op.startsWith "py." then OH.Driver.Py.handle op args impl
     else if op.startsWith "sun." then OH.Driver.C11.handle op args impl
+    else if op.startsWith "syn." || op.startsWith "syn4." then OH.Driver.Syn.handle op args impl
     else none
   match r with
   | some v => v
